@@ -41,7 +41,8 @@ None == "-"
 \* may = TRUE when io.EOF may or may not accompany the data (reader at the exact end)
 Res(e, n, bs, ret, may, s, b) == [e |-> e, n |-> n, bs |-> bs, ret |-> ret, may |-> may, st |-> s, b |-> b]
 Fail(e, s, b) == Res(e, 0, << >>, None, FALSE, s, b)
-\* zero-length transfer: os.File answers (0, nil) even on closed or wrongly-opened handles; only
+\* zero-length transfer: os.File answers (0, nil) even on wrongly-opened handles (and ReadAt/WriteAt even on closed
+\* ones; Read and Write take the descriptor lock first and report ErrClosed); only
 \* "no bytes transferred, nothing changed" is required (DESIGN.md tolerance 8)
 Zero(s, b) == Res("ZERO", 0, << >>, None, FALSE, s, b)
 
@@ -58,8 +59,8 @@ Open(s, i, acc, app, tr) ==
 
 Read(s, i, n) ==
   LET h == H(s, i) IN
-  IF n = 0 THEN Zero(s, "read/zero")
-  ELSE IF Closed(s, i) THEN Fail("ECLOSED", s, "read/closed")
+  IF Closed(s, i) THEN Fail("ECLOSED", s, IF n = 0 THEN "read/closed-zero" ELSE "read/closed")
+  ELSE IF n = 0 THEN Zero(s, "read/zero")
   ELSE IF h.acc = "WO" THEN Fail("FAIL", s, "read/write-only")
   ELSE LET k == Max2(0, Min2(n, Len(s.data) - h.off)) IN
     IF k = 0 THEN Res("EOF", 0, << >>, None, FALSE, s, IF h.off > Len(s.data) THEN "read/beyond-end" ELSE "read/at-end")
@@ -78,8 +79,8 @@ ReadAt(s, i, n, off) ==
 
 Write(s, i, bs) ==
   LET h == H(s, i) IN
-  IF Len(bs) = 0 THEN Zero(s, "write/zero")
-  ELSE IF Closed(s, i) THEN Fail("ECLOSED", s, "write/closed")
+  IF Closed(s, i) THEN Fail("ECLOSED", s, IF Len(bs) = 0 THEN "write/closed-zero" ELSE "write/closed")
+  ELSE IF Len(bs) = 0 THEN Zero(s, "write/zero")
   ELSE IF h.acc = "RO" THEN Fail("FAIL", s, "write/read-only")
   ELSE LET pos == IF h.app THEN Len(s.data) ELSE h.off
            d2  == WriteInto(s.data, pos, bs)
